@@ -319,6 +319,191 @@ def check_C20(tier):
     return res.finish('./vcheck C20 --tier ' + tier)
 
 
+def run_lines(exe, lines, prefix):
+    """Feed command lines to a harness binary, return {id: rest-of-line} for lines starting with prefix."""
+    d = cache_dir('problems')
+    pth = os.path.join(d, 'cmd_%d_%s.txt' % (os.getpid(), prefix))
+    open(pth, 'w').write('\n'.join(lines) + '\n')
+    r = sh([exe, pth], check=False, timeout=1200)
+    os.remove(pth)
+    out = {}
+    for ln in r.stdout.split('\n'):
+        if ln.startswith(prefix + ' '):
+            _, i, rest = (ln.split(' ', 2) + [''])[:3]
+            out[i] = rest
+    if r.returncode != 0:
+        out['__crash__'] = 'exit %s: %s' % (r.returncode, r.stdout[-500:])
+    return out
+
+
+U64 = 1 << 64
+
+
+def check_C15(tier):
+    import coqeval, re as _re
+    res = Result('C15', tier)
+    framework(res, ['C15_bump_spec', 'C15_never_invalid', 'C15_old_release_refuted', 'C15_old_panic_corrupts'])
+    rng = random.Random(seed())
+    builds = [('tc', 'debug'), ('tc', 'release'), ('tcsafe', 'debug'), ('tcsafe', 'release')]
+    exes = {}
+    for fs, prof in builds:
+        sets = ce.compiled_sets('quick', [fs], prof)
+        exes[(fs, prof)] = sets[0][1][fs][0]
+    inputs = [('KwIdent', True, 'fn for12 3.5'), ('Greek', True, 'λ日本 ab😀λ'), ('Greek', True, 'αβ λ'),
+              ('KwIdentB', False, 'fn for12 3.5'), ('RawBytes', False, b'ab\xff\xfe\x80\x80\x00'.decode('latin1')),
+              ('SelfLoops', True, 'aaab 12_3')]
+    cases = []
+    for en, utf8, txt in inputs:
+        data = txt.encode('utf8') if utf8 else txt.encode('latin1')
+        L = len(data)
+        ns = set(range(0, L + 3))
+        for j in range(0, 5):
+            ns.add(U64 - 1 - j)
+        ns.update([1 << 63, (1 << 63) - 1, (1 << 63) + 1, 100, 1 << 32])
+        for k in range(0, 4 if tier == 'quick' else 7):
+            # values that wrap to every in-range position (the finding F3 shape)
+            wraps = set(U64 - t for t in range(1, L + 2))
+            extra = set(rng.randrange(U64) for _ in range(4 if tier == 'quick' else 40))
+            for n in sorted(ns | wraps | extra):
+                cases.append((en, utf8, data, k, n))
+    lines = ['B c%d %s %s %d %d' % (i, en, data.hex(), k, n) for i, (en, utf8, data, k, n) in enumerate(cases)]
+    real = {b: run_lines(exe, lines, 'B') for b, exe in exes.items()}
+    # positions before the bump are observed (they are the engine's business), the model decides the bump
+    ref = real[('tc', 'debug')]
+    exprs = []; befores = []
+    for i, (en, utf8, data, k, n) in enumerate(cases):
+        m = _re.search(r'before=(\d+)\.\.(\d+)', ref.get('c%d' % i, ''))
+        if not m:
+            raise RuntimeError('harness gave no result for case %d: %r' % (i, ref.get('c%d' % i)))
+        s0, e0 = int(m[1]), int(m[2]); befores.append((s0, e0))
+        exprs.append('bump_case %s %s %d %d %d' % ('true' if utf8 else 'false', coqeval.nlist(data), s0, e0, n))
+    model = coqeval.coq_eval(exprs, 'From LogosV Require Import Runtime.Source.', 'bump')
+    nbad = 0; wrapcases = 0; panics = 0
+    for b, out in real.items():
+        if '__crash__' in out:
+            res.violation(None, 'harness %s crashed: %s' % (b, out['__crash__']), dict(build=b), found_input=False)
+        for i, (en, utf8, data, k, n) in enumerate(cases):
+            r = out.get('c%d' % i, '')
+            m = _re.match(r'(ok|panic) before=(\d+)\.\.(\d+) after=(\d+)\.\.(\d+) (\w+)', r)
+            mok, ms, me = model[i]
+            res.count('bump_cases')
+            if befores[i][1] + n >= U64: wrapcases += 1
+            if not mok: panics += 1
+            bad = None
+            if not m:
+                bad = 'no/garbled result: %r' % r
+            else:
+                rok = m[1] == 'ok'; after = (int(m[4]), int(m[5]))
+                if (int(m[2]), int(m[3])) != befores[i]:
+                    bad = 'position before bump differs between builds'
+                elif rok != bool(mok):
+                    bad = 'bump %s but the specification says %s' % ('succeeded' if rok else 'panicked', 'success' if mok else 'panic')
+                elif after != (ms, me):
+                    bad = 'position after bump %r, specification %r' % (after, (ms, me))
+                elif m[6] != 'sliceok':
+                    bad = 'slice()/remainder() after bump: %s' % m[6]
+            if bad:
+                nbad += 1
+                if nbad <= 6:
+                    key = None
+                    res.violation(key, '%s %s/%s input %r after %d next(): bump(%d): %s' % (en, b[0], b[1], data, k, n, bad),
+                                  dict(enum=en, featureset=b[0], profile=b[1], input_hex=data.hex(), nexts=k, bump=n, observed=r,
+                                       expected=dict(ok=bool(mok), start=ms, end=me)))
+    res.oblige(nbad == 0)
+    res.cov['wraparound_cases'] = wrapcases
+    res.cov['cases_expected_to_panic'] = panics
+    res.sample(dict(case=lines[0], model=model[0]))
+    res.sample(dict(case=lines[-1], model=model[-1]))
+    res.cov['rule'] = ('every lexer position reachable by 0..k next() calls on small str / byte sources x n in {0..len+2, 2^64-1-j, 2^63+-1, values wrapping onto every in-range position, random}; '
+                       'debug and release, default and forbid_unsafe builds, catch_unwind; compared with Runtime.Source.bump evaluated in Coq (vm_compute); slice()/remainder() checked afterwards only in states the spec calls valid')
+    res.trusted += ['Coq kernel + vm_compute (model evaluation in coqc)', 'harness bump mode (tools/harness/main.rs.tmpl), lib/checks.py comparison']
+    res.assumptions += ['memory-level effects of an out-of-range slice are not observed (no sanitizer); the check never hands an invalid span to slice()']
+    return res.finish('./vcheck C15 --tier ' + tier)
+
+
+def check_C05(tier):
+    import coqeval, re as _re
+    res = Result('C05', tier)
+    framework(res, ['C05_read_spec', 'C05_requests_ordered', 'C06_opt_is_ref'])
+    # K6: the real Source::read against the model on a grid, default and forbid_unsafe, debug and release
+    builds = [('tc', 'debug'), ('tc', 'release'), ('tcsafe', 'debug'), ('tcsafe', 'release')]
+    exes = {}
+    setsby = {}
+    for fs, prof in builds:
+        sets = ce.compiled_sets(tier if prof == 'debug' else 'quick', [fs], prof)
+        exes[(fs, prof)] = sets[0][1][fs][0]
+        setsby[(fs, prof)] = sets
+    grid = []
+    for L in list(range(0, 41)) + [63, 64, 65]:
+        offs = set(range(0, L + 10)) | set(U64 - k for k in range(1, 36)) | set((1 << 63) + d for d in (-1, 0, 1))
+        for kind in ('s', 'b'):
+            for off in sorted(offs):
+                grid.append((kind, L, off))
+    if tier == 'quick':
+        rng = random.Random(seed()); rng.shuffle(grid); grid = grid[:2500]
+    lines = ['R g%d %s %d %d' % (i, k, L, off) for i, (k, L, off) in enumerate(grid)]
+    sizes = [1, 1, 2, 3, 4, 8, 16, 32]
+    exprs = []
+    for kind, L, off in grid:
+        data = [(97 + i % 26) if kind == 's' else ((i * 7 + 1) % 251) for i in range(L)]
+        for sz in sizes:
+            exprs.append('read_case %s %d %d' % (coqeval.nlist(data), off, sz))
+    model = coqeval.coq_eval(exprs, 'From LogosV Require Import Runtime.Source.', 'read', shard=1500)
+    nbad = 0
+    for b, exe in exes.items():
+        out = run_lines(exe, lines, 'R')
+        for i, (kind, L, off) in enumerate(grid):
+            toks = out.get('g%d' % i, '').split()
+            for j, sz in enumerate(sizes):
+                m = model[i * len(sizes) + j]
+                exp = 'None' if m[0] == 0 else (bytes(m[1:]).hex() or '-')
+                got = toks[j] if j < len(toks) else '?'
+                res.count('read_grid_cases')
+                if got != exp or 'PANIC' in toks:
+                    nbad += 1
+                    if nbad <= 5:
+                        res.violation(None, 'Source::read (%s/%s) on a %s source of length %d at offset %d, chunk %d: got %s, specification %s' % (b[0], b[1], 'str' if kind == 's' else '[u8]', L, off, sz, got, exp),
+                                      dict(featureset=b[0], profile=b[1], kind=kind, len=L, offset=off, size=sz, observed=got, expected=exp))
+    res.oblige(nbad == 0)
+    # K3: every recorded read of every probe stays inside the source or is answered None by read (by C05_read_spec);
+    #     observed directly: requests with offset+size <= len are the only ones that touch memory
+    fss = ['tc', 'sm']
+    sets = ce.compiled_sets(tier, fss)
+    drv = build.extraction_build()
+    mism = ce.run_k3(res, sets, fss, tier, modes=(0, 1), drv=drv)
+    enums_by_label = {label: enums for label, h, enums in sets}
+    n = 0
+    for label, fs, en, mode, p, tags, raw, model_tr in mism:
+        n += 1
+        if n <= 4:
+            res.violation(None, '%s/%s on %r: read requests differ from the emitted-program model (%s)' % (en, fs, p, ','.join(sorted(tags))),
+                          dict(definition=ce.enum_source(enums_by_label[label], en), enum=en, featureset=fs, input_hex=p.hex(), observed_trace=raw, model_trace=model_tr,
+                               no_longer_checks='correspondence K3 for %s' % en), found_input=False)
+    res.oblige(n == 0)
+    # K2: default vs forbid_unsafe builds, debug and release, identical results and no panic
+    for prof in ('debug', 'release'):
+        t = tier if prof == 'debug' else 'quick'
+        fs2 = ['tc', 'tcsafe']
+        sets2 = [(label, dict(list(setsby[('tc', prof)][k][1].items()) + list(setsby[('tcsafe', prof)][k][1].items())), setsby[('tc', prof)][k][2])
+                 for k, (label, _, _) in enumerate(setsby[('tc', prof)])]
+        mism2 = ce.run_k2(res, sets2, fs2, t, modes=(0, 1), drv=drv)
+        enums2 = {label: enums for label, h, enums in sets2}
+        k = 0
+        for label, fs, en, mode, p, tags, raw, mdl in mism2:
+            k += 1
+            if k <= 4:
+                res.violation(None, '%s/%s/%s on %r (partial=%s): %s' % (en, fs, prof, p, bool(mode & 1), ','.join(sorted(tags))),
+                              dict(definition=ce.enum_source(enums2[label], en), enum=en, featureset=fs, profile=prof, input_hex=p.hex(), input=repr(p), partial=bool(mode & 1), observed=raw),
+                              found_input=('panic' in tags or 'slice' in tags or any(t.startswith('spec-') for t in tags)))
+        res.oblige(k == 0)
+    res.cov['rule'] = ('K6: Source::read::<u8 / &[u8;1,2,3,4,8,16,32]> on str and [u8] sources of length 0..40,63..65 at offsets 0..len+9, 2^64-k, 2^63+-1, four builds, against Runtime.Source.read (vm_compute); '
+                       'K3: read requests of every attempt equal the model log; K2: default vs forbid_unsafe builds (debug, release) on all probes incl. exact-size heap inputs of every short length, both modes, no panic')
+    res.trusted += ['Coq kernel + vm_compute (model evaluation in coqc)', 'harness read mode']
+    res.assumptions += ['machine-level memory safety of unsafe pointer reads is modelled as index bounds; no sanitizer result is claimed (partial)',
+                        'inputs are exact-size heap allocations (Box<[u8]>) in the harness']
+    return res.finish('./vcheck C05 --tier ' + tier)
+
+
 def setup():
     ok, msg = build.coq_build()
     if not ok:
